@@ -214,7 +214,7 @@ Undeliverable(X, h) ==
                            \* also receives notices may be found dead while a notice is being delivered,
                            \* and then (third sentence of C14) nothing further is published
                            \/ (m \in X.dead /\ (m \in X.wl \/ X.mods[m].logger)
-                               /\ X.mods[m].subs \cap {FAILED, CLIENT_CLOSED, ALL} = {})}
+                               /\ (X.mods[m].subs \cap {FAILED, CLIENT_CLOSED, ALL} = {} \/ Modes = {"deferred"}))}
 AbleMonitor(X, Y, x) ==
   /\ x \in Live(X) /\ x \in Live(Y) /\ x \notin X.dead /\ (x \in X.wl \/ X.mods[x].logger)
   /\ (FAILED \in X.mods[x].subs \/ ALL \in X.mods[x].subs)
